@@ -398,7 +398,9 @@ func c19HttpRefused(r *Run) {
 	ctx, cancel := context.WithTimeout(context.Background(), 3*hangTimeout)
 	defer cancel()
 	res := make(chan error, 1)
-	go func() { res <- w.Write(ctx, &Rpc{Id: 3, Header: &goatorepo.RequestHeader{Source: "writer", Method: "/s/m"}}) }()
+	go func() {
+		res <- w.Write(ctx, &Rpc{Id: 3, Header: &goatorepo.RequestHeader{Source: "writer", Method: "/s/m"}})
+	}()
 	// the request is inside the peer's ServeHTTP, waiting for a reader that never comes
 	select {
 	case <-peer.conns:
